@@ -18,8 +18,10 @@ Step == l' = l + 1 /\ TLCSet(1, l)
 Init == l = 1 /\ cfg = [pipe |-> "none"] /\ verdicts = 0 /\ authok = FALSE /\ rejected = FALSE /\ enters = {} /\ hooks = 0 /\ TLCSet(1, 0)
 Reset == Is("Reset") /\ cfg' = Ev /\ verdicts' = 0 /\ authok' = FALSE /\ rejected' = FALSE /\ enters' = {} /\ hooks' = 0 /\ Step
 
-\* the exchange happens at most once per connection
-AuthOK   == Is("AuthOK")   /\ verdicts = 0 /\ verdicts' = 1 /\ authok' = TRUE /\ UNCHANGED <<cfg, rejected, enters, hooks>> /\ Step
+\* the exchange happens at most once per connection; it succeeds only for a token that THIS client sent and that is valid
+\* (whatever other connections of the process send meanwhile)
+GoodFirsts == {"authgood", "authsetidgood", "authgoodbytes"}
+AuthOK   == Is("AuthOK")   /\ cfg.first \in GoodFirsts /\ verdicts = 0 /\ verdicts' = 1 /\ authok' = TRUE /\ UNCHANGED <<cfg, rejected, enters, hooks>> /\ Step
 AuthFail == Is("AuthFail") /\ verdicts = 0 /\ verdicts' = 1 /\ UNCHANGED <<cfg, authok, rejected, enters, hooks>> /\ Step
 HookReject == Is("HookReject") /\ rejected' = TRUE /\ UNCHANGED <<cfg, verdicts, authok, enters, hooks>> /\ Step
 Established == authok /\ ~rejected
